@@ -256,3 +256,15 @@ Proof.
   pose proof (source_handle_len_is_the_model E0 C0 (fun p => p) d name) as E.
   rewrite (handle_len_spec _ _ _ (abs_db d) name (DInv_Inv d H)) in E. cbn [snd] in E. injection E as E. exact E.
 Qed.
+
+(* ---------- iteration: TinyFlux.__iter__ and Measurement.__iter__ (generator functions: what they yield, in order) ---------- *)
+Theorem source_db_iter d : gen_db___iter__ d = db_rows d.
+Proof. unfold gen_db___iter__. cbv zeta. rewrite (append_loop (fun p : point => p) (db_rows d) []). cbn [app]. apply map_id. Qed.
+Lemma yield_loop (f : point -> bool) : forall (rows : list point) acc,
+  fold_left (fun yielded item => if f item then yielded ++ [item] else yielded) rows acc = acc ++ filter f rows.
+Proof.
+  induction rows as [|p rows IH]; intros acc; cbn [fold_left filter]. - rewrite app_nil_r. reflexivity.
+  - rewrite IH. destruct (f p); [rewrite <- app_assoc; reflexivity | reflexivity].
+Qed.
+Theorem source_handle_iter d name : gen_meas___iter__ d name = filter (fun p => str_eqb (p_meas p) name) (db_rows d).
+Proof. unfold gen_meas___iter__. cbv zeta. apply (yield_loop (fun p => str_eqb (p_meas p) name) (db_rows d) []). Qed.
